@@ -18,7 +18,7 @@ claimed here is different (DESIGN §4 C20):
   - **T1** wherever the real code iterates a `HashMap`/`HashSet` in a way that can reach its
     output, the model takes the iteration order / rendering as an explicit parameter and the
     theorem says what is independent of it (`orset_verdict_independent_of_set_rendering`,
-    `gcounter_value_order_independent`, `dst_*`) and what is NOT
+    `gcounter_value_order_independent`, `dst_step_order_independent` for the current code) and what is NOT
     (`orset_violation_text_depends_on_order_counterexample`,
     `dst_recovery_depends_on_map_order_counterexample`);
   - **T2** the kernel: the timer heap of `SimulationContext` delivers in an order that is a
@@ -373,33 +373,49 @@ def nodesOf {σ} : Except String (Dst σ) → Option (List NState)
   | .ok d => some d.nodes
   | .error _ => none
 
-def cfg2 : DstCfg := ⟨2, 0, false, false, 0, 0, 100, 5000, 60000⟩
+/-- the PINNED code: `crashed_nodes()` in map order -/
+def cfg2 : DstCfg := ⟨2, 0, false, false, 0, 0, 100, 5000, 60000, false⟩
 
-/-- full strength: one step of the simulation is a function of (state, generator) — whatever
-    order the node map is iterated in -/
-def C20_dst_step_independent_of_map_order : Prop :=
-  ∀ (c : DstCfg) (pi pi' : List Nat) (d : Dst (List Nat)), pi.Perm pi' →
-    nodesOf (recoverLoop scripted c pi d) = nodesOf (recoverLoop scripted c pi' d)
+/-- full strength: the recovery loop of one step (the only place of `DSTSimulation::step` that
+    iterates the node map and draws) is a function of (state, generator) — whatever order the node
+    map is iterated in, however many nodes are down.  Parameter: which variant of
+    `CrashSimulator::crashed_nodes` (`sorted = true`: current code, 3012c3c). -/
+def C20_dst_step_independent_of_map_order (sorted : Bool) : Prop :=
+  ∀ (σ : Type) (S : Sampler σ) (c : DstCfg) (pi pi' : List Nat) (d : Dst σ), c.sortedNodes = sorted →
+    pi.Perm pi' → recoverLoop S c pi d = recoverLoop S c pi' d
 
-/-- two nodes are down; the stream says "recover the first one visited (for 100+7 ms), not the
-    second": WHICH node comes back depends on the iteration order of the map — and with it every
-    later draw, crash, recovery and the final result.  This is what the cross-process runs of the
-    real `DSTSimulation` show (known finding `C20:trace-differs-across-processes:dst`). -/
-theorem dst_recovery_depends_on_map_order_counterexample : ¬ C20_dst_step_independent_of_map_order := by
+/-- the current code: proved at full strength — any number of nodes down, any two iteration
+    orders of the map, any generator -/
+theorem dst_step_order_independent : C20_dst_step_independent_of_map_order true := by
+  intro σ S c pi pi' d hs hp
+  unfold recoverLoop crashedNodes
+  rw [hs]
+  simp only [if_true]
+  rw [sortNat_perm_invariant _ _ (hp.filter _)]
+
+/-- the pinned code: two nodes are down; the stream says "recover the first one visited (for
+    100+7 ms), not the second": WHICH node comes back depends on the iteration order of the map —
+    and with it every later draw, crash, recovery and the final result.  This is what the
+    cross-process runs of the pinned `DSTSimulation` showed (fixed: 3012c3c, was
+    `C20:trace-differs-across-processes:dst`). -/
+theorem dst_recovery_depends_on_map_order_counterexample : ¬ C20_dst_step_independent_of_map_order false := by
   intro h
-  have := h cfg2 [0, 1] [1, 0] { g := [1, 7, 0], now := 50, nodes := [.crashed 10, .crashed 20] }
-    (List.Perm.swap 1 0 [])
+  have := congrArg nodesOf (h (List Nat) scripted cfg2 [0, 1] [1, 0]
+    { g := [1, 7, 0], now := 50, nodes := [.crashed 10, .crashed 20] } rfl (List.Perm.swap 1 0 []))
   revert this
   decide
+
+example : nodesOf (recoverLoop scripted { cfg2 with sortedNodes := true } [1, 0]
+    { g := [1, 7, 0], now := 50, nodes := [.crashed 10, .crashed 20] }) = some [.recovering 50 157, .crashed 20] := by decide
 
 /-- the recovery loop sees the order only through the sub-list of crashed nodes … -/
 theorem recoverLoop_depends_on_crashed_order_only {σ} (S : Sampler σ) (c : DstCfg) (pi pi' : List Nat) (d : Dst σ)
     (h : pi.filter (fun i => (d.nodes.getD i .running).isCrashed) = pi'.filter (fun i => (d.nodes.getD i .running).isCrashed)) :
     recoverLoop S c pi d = recoverLoop S c pi' d := by
-  unfold recoverLoop
+  unfold recoverLoop crashedNodes
   rw [h]
 
-/-- … so a step does not depend on the map order whenever at most one node is down at that
+/-- … so — in EITHER variant — a step does not depend on the map order whenever at most one node is down at that
     point (decidable hypothesis; the `calm` preset never crashes a node, and the model run says
     for every step of every run whether the hypothesis held) -/
 theorem dst_step_order_independent_partial {σ} (S : Sampler σ) (c : DstCfg) (pi pi' : List Nat) (d : Dst σ)
@@ -432,6 +448,57 @@ theorem completeRecoveries_pointwise (now : Nat) (nodes : List NState) :
     | crashed t => simp [ih]
     | recovering a e =>
       by_cases hge : now ≥ e <;> simp [hge, ih]
+
+/-! ### the thread-local BUGGIFY context and the store-based DST harnesses -/
+
+/-- full strength: a WAL / streaming / compaction DST run is independent of the BUGGIFY context an
+    earlier run left on the thread.  Parameter: does the harness install its own configuration
+    (`true`: current code, 474577c). -/
+def C20_store_harness_independent_of_previous_context (installsOwn : Bool) : Prop :=
+  ∀ (σ α : Type) (body : BugCtx → σ → α) (prev prev' : BugCtx) (g : σ),
+    storeHarnessRun installsOwn prev body g = storeHarnessRun installsOwn prev' body g
+
+/-- the current code: whatever the harness does with the context it sees, it sees its own -/
+theorem store_harness_independent_of_previous_context :
+    C20_store_harness_independent_of_previous_context true := by
+  intro σ α body prev prev' g
+  rfl
+
+/-- the pinned code: after a run that left `FaultConfig::disabled()` behind, a fault site with
+    probability 1.0 does not fire and does not draw; in a fresh thread (`moderate`: enabled) it
+    draws and fires (fixed: 474577c, was `C20:trace-depends-on-earlier-run:{wal,streaming,compaction}`) -/
+theorem store_harness_depends_on_previous_context_counterexample :
+    ¬ C20_store_harness_independent_of_previous_context false := by
+  intro h
+  have := h (List Nat) (Option (List Bool × List Nat))
+    (fun ctx g => match faultSites scripted [0x3FF0000000000000] ctx g with | .ok r => some r | .error _ => none)
+    { enabled := false } { enabled := true } [5, 6]
+  revert this
+  decide
+
+/-- a disabled context consumes nothing from the generator: the later draws of the run shift -/
+theorem disabled_context_draws_nothing {σ} (S : Sampler σ) (p : Nat) (g : σ) :
+    storeDecision S { enabled := false } p g = .ok (false, g) := rfl
+
+/-! ### the WAL DST model: what recovery yields from a file of items -/
+
+/-- a file whose header was not written completely (empty, or a strict prefix) yields nothing;
+    a complete header followed by entries yields them up to the first partial item — the
+    item-level reading of C10 `entries_of_prefix` the WAL harness model rests on -/
+theorem wal_recover_file_table (a b c : Nat) :
+    recoverFile { items := [] } = [] ∧
+    recoverFile { items := [.prefix] } = [] ∧
+    recoverFile { items := [.header] } = [] ∧
+    recoverFile { items := [.header, .entry a, .entry b] } = [a, b] ∧
+    recoverFile { items := [.header, .entry a, .prefix] } = [a] ∧
+    recoverFile { items := [.header, .prefix, .entry c] } = [] := by
+  simp [recoverFile]
+
+/-- a crash keeps exactly the durable items of every file, file by file (the real code iterates
+    `files.values_mut()` of a `HashMap`: no file's truncation depends on another file) -/
+theorem wal_crash_pointwise (w : Wal) :
+    (wCrash.run w).toOption.map (fun r => r.2.files) =
+      some (w.files.map fun f => { f with items := f.items.take f.synced }) := rfl
 
 end C20
 end RedisVerif
